@@ -18,6 +18,7 @@ static qb_loop_t *L;
 static int max_regs, max_actions, horizon, actions_left, in_raise, stop_called_iter, calls_after_stop;
 static qb_loop_timer_handle stale_th; static int have_stale;
 static int job_order[3][MAXREG], njob_order[3];
+static int sigmod_prio, only_signal_sets;
 
 static void job_cb(void *d);
 static void timer_cb(void *d);
@@ -189,7 +190,9 @@ static int act(int self)
 		} else if (m[c].code == A_SIGMOD) {
 			/* the handler moves to the other signal (rarely used call): handlers that stay on the old signal keep working */
 			int ns = r->signo == SIGUSR1 ? SIGUSR2 : SIGUSR1;
-			int32_t rc = qb_loop_signal_mod(L, (enum qb_loop_priority)r->prio, ns, (void *)(intptr_t)o, sig_cb, r->sh);
+			int np = sigmod_prio ? (r->prio == 2 ? 1 : 2) : r->prio;       /* optionally to another priority as well */
+			int32_t rc = qb_loop_signal_mod(L, (enum qb_loop_priority)np, ns, (void *)(intptr_t)o, sig_cb, r->sh);
+			r->prio = np;
 			vp_log("    signal_mod r%d: signal %d -> %d = %d", o, r->signo, ns, rc);
 			if (rc != 0) vp_fail("signal_mod failed: %d", rc);
 			r->old_signo = r->signo; r->signo = ns;
@@ -311,6 +314,7 @@ static void run(void)
 		default: add_sig(prio, SIGUSR1); break;
 		}
 	}
+	if (only_signal_sets) { int any = 0; for (i = 0; i < nreg; i++) any |= R[i].type == T_SIG; if (!any) { qb_loop_destroy(L); vp_pruned(); return; } }
 	/* signals only matter if something raises them: one initial raise when a handler exists */
 	for (i = 0; i < nreg; i++) if (R[i].type == T_SIG) { do_raise(R[i].signo); break; }
 	env_hook = hook;
@@ -339,6 +343,8 @@ static void init(void)
 {
 	max_regs = (int)vp_param("max_registrations", 3, 4);
 	max_actions = (int)vp_param("max_actions", 2, 3);
+	sigmod_prio = (int)vp_param("signal_mod_changes_priority", 0, 0);
+	only_signal_sets = (int)vp_param("only_signal_sets", 0, 0);
 	horizon = (int)vp_param("iterations", 14, 16);
 }
 
